@@ -63,6 +63,8 @@ pub enum Rec {
     },
     /// an aggregate base delay was pushed
     AggregatePushed { client: bool, delay: Duration },
+    /// a pending aggregate base delay took effect
+    AggregatePopped { client: bool, delay: Duration },
     /// the main loop ended
     Exit {
         reason: &'static str,
